@@ -20,11 +20,20 @@ Modelled (control flow mirrored; mutation -> returned value; loops -> folds / fu
   `_initialize_cylces`, `np.arange` as used by `generate_end_end_distances`.
 * the acceptance conjunction of `RandomWalk.update_positions` and the start-point test of
   `_random_walk`; `bendiness` and `_is_overlap` are opaque booleans.
+* the ORDERING COMPARISONS of all these tests (strict or not: what happens to a point exactly on a boundary)
+  are not written here: they are taken from `Generated/RestraintTables.lean`, which the translator
+  (harness/tables/restraints.py) reads from the source of `in_sphere`, `in_cylinder`, `in_rectangle`,
+  `checks_milestones`, `is_restricted` on every run, normalised to "accepted iff quantity REL length".
+* `graph_utils._compute_path_length_cartesian`, `compute_avg_step_length`, `is_branched`, and the bookkeeping of
+  `persistence.sample_end_to_end_distances` (which molecule of a batch receives which sampled distance).
 
 Specification side (what the property states, evaluated by the driver on the implementation's
 output): `regionHolds`, `directionHolds`, `inWindow`, `ringClosingEdge`, `eeInRange`.
 -/
+import PolyplyVerif.Generated.RestraintTables
+
 namespace PolyplyVerif.Restraints
+open PolyplyVerif.RestraintTables (Cmp)
 
 /-! ### vectors (local: this file is independent of `Model/Geometry.lean`) -/
 
@@ -47,6 +56,22 @@ def normGt (s r : Rat) : Bool := decide (r < 0) || decide (r * r < s)
 /-- `‖v‖ < r` for `v` with squared norm `s` (false unless `r` is positive) -/
 def normLt (s r : Rat) : Bool := decide (0 < r) && decide (s < r * r)
 
+/-- `‖v‖ REL r` for `v` with squared norm `s`, decided without square roots -/
+def cmpNorm (c : Cmp) (s r : Rat) : Bool :=
+  match c with
+  | .gt => normGt s r
+  | .lt => normLt s r
+  | .le => !(normGt s r)
+  | .ge => !(normLt s r)
+
+/-- `a REL b` for two numbers -/
+def cmpNum (c : Cmp) (a b : Rat) : Bool :=
+  match c with
+  | .gt => decide (b < a)
+  | .lt => decide (a < b)
+  | .le => decide (a ≤ b)
+  | .ge => decide (b ≤ a)
+
 /-! ### geometric restraints -/
 
 /-- the `in_out` token of a build-file geometry line -/
@@ -66,8 +91,8 @@ deriving Repr, DecidableEq
 def inSphere (p : V3) (io : InOut) (c : V3) (r : Rat) : Bool :=
   let s := (c.sub p).nsq
   match io with
-  | .inside => !(normGt s r)
-  | .outside => !(normLt s r)
+  | .inside => cmpNorm RestraintTables.sphereIn s r
+  | .outside => cmpNorm RestraintTables.sphereOut s r
   | .other => true
 
 /-- `in_cylinder` (z-aligned; `diff = centre - point`) -/
@@ -75,14 +100,15 @@ def inCylinder (p : V3) (io : InOut) (c : V3) (r h : Rat) : Bool :=
   let d := c.sub p
   let s := d.x * d.x + d.y * d.y
   match io with
-  | .inside => normLt s r && decide (rabs d.z < h)
-  | .outside => normGt s r || decide (d.z > rabs h)
+  | .inside => cmpNorm RestraintTables.cylInRadius s r && cmpNum RestraintTables.cylInHeight (rabs d.z) h
+  | .outside => cmpNorm RestraintTables.cylOutRadius s r || cmpNum RestraintTables.cylOutHeight d.z (rabs h)
   | .other => false
 
 /-- `in_rectangle` -/
 def inRectangle (p : V3) (io : InOut) (c : V3) (a b e : Rat) : Bool :=
   let d := c.sub p
-  let check := decide (rabs d.x < a) && decide (rabs d.y < b) && decide (rabs d.z < e)
+  let check := cmpNum RestraintTables.rectInside (rabs d.x) a && cmpNum RestraintTables.rectInside (rabs d.y) b &&
+    cmpNum RestraintTables.rectInside (rabs d.z) e
   match io with
   | .inside => check
   | .outside => !check
@@ -152,6 +178,16 @@ def cosGeB (d c m : Rat) : Bool :=
   if 0 ≤ d then decide (c ≤ 0) || decide (c * c * m ≤ d * d)
   else decide (c < 0) && decide (d * d ≤ c * c * m)
 
+/-- `angle REL |ref|` for the angle between normal and step, with `d = n·step`, `c = cos|ref|`,
+`m = ‖n‖²‖step‖²`: the cosine is decreasing on [0°, 180°], so `angle ≤ ref ⟺ d ≥ c·√m`,
+`angle ≥ ref ⟺ d ≤ c·√m ⟺ −d ≥ (−c)·√m`, and the strict forms are the negations -/
+def angleCmpB (r : Cmp) (d c m : Rat) : Bool :=
+  match r with
+  | .le => cosGeB d c m
+  | .gt => !(cosGeB d c m)
+  | .ge => cosGeB (-d) (-c) m
+  | .lt => !(cosGeB (-d) (-c) m)
+
 /-- `is_restricted` on the vector `step = point - old_point` the code forms -/
 def isRestricted (opt : Option RwOption) (step : V3) : Bool :=
   match opt with
@@ -159,7 +195,7 @@ def isRestricted (opt : Option RwOption) (step : V3) : Bool :=
   | some o =>
     let d := o.normal.dot step
     if ratSign d != o.sgn then false
-    else cosGeB d o.cosRef (o.normal.nsq * step.nsq)
+    else angleCmpB RestraintTables.dirAngle d o.cosRef (o.normal.nsq * step.nsq)
 
 /-- specification: the step points to the side of the plane the angle's sign names, and makes an angle
 of at most `|ref|` with the normal: `n·step ≥ cos|ref| · ‖n‖ ‖step‖` -/
@@ -207,7 +243,7 @@ def checksMilestones (posOf : Nat → Option V3) (box : V3) (p : V3) (rs : List 
     | none => true
     | some q =>
       let s := miSq p q box
-      !(normGt s r.ub) && !(normLt s r.lb)
+      cmpNorm RestraintTables.msUpper s r.ub && cmpNorm RestraintTables.msLower s r.lb
 
 /-- specification: the squared min-image distance `s` lies in the window `[lo, hi]` -/
 def inWindow (s lo hi : Rat) : Prop := distGe s lo ∧ distLe s hi
@@ -414,6 +450,82 @@ def setDistanceRestraint (tree : List (Nat × Nat)) (store : DStore) (target ref
       match pathFrom tree ref' target' with
       | none => .error "crash"
       | some path => .ok ((boundsAlong path ref' target' d avg tol).foldl (fun s e => s.append e.1 e.2) store)
+
+/-! ### average step length and contour length (`graph_utils.py`), registration of the restraints -/
+
+/-- `_compute_path_length_cartesian(mol_idx, path, nonbond_matrix)`: `path_length += get_interaction(…)[0]` over
+the edges of `path`, starting from 0.  `size u v` stands for
+`nonbond_matrix.get_interaction(mol_idx, mol_idx, u, v)[0]` (the pair size of the two residues). -/
+def pathLength (size : Nat → Nat → Rat) (path : List (Nat × Nat)) : Rat :=
+  path.foldl (fun acc e => acc + size e.1 e.2) 0
+
+/-- `compute_avg_step_length(molecule, mol_idx, nonbond_matrix, path)`:
+`(max_path_length / len(path), max_path_length)`; `none` = the ZeroDivisionError of an empty path -/
+def computeAvgStepLength (size : Nat → Nat → Rat) (path : List (Nat × Nat)) : Option (Rat × Rat) :=
+  match path with
+  | [] => none
+  | _ => some (pathLength size path / (path.length : Rat), pathLength size path)
+
+/-- `is_branched(graph)`: some node has degree larger than 2 (degree = length of the adjacency list) -/
+def isBranched (g : Adj) : Bool := g.any fun e => decide (2 < e.2.length)
+
+/-- `list(zip(path[:-1], path[1:]))` -/
+def edgePath : List Nat → List (Nat × Nat)
+  | a :: b :: rest => (a, b) :: edgePath (b :: rest)
+  | _ => []
+
+/-- one declared restraint of `topology.distance_restraints[(mol_name, mol_idx)]`:
+`(ref_node, target_node) ↦ (distance, tolerance)` -/
+structure Declared where
+  ref : Nat
+  target : Nat
+  d : Rat
+  tol : Rat
+deriving Repr, DecidableEq
+
+/-- the loop of `restraints.set_restraints` for one molecule: for every declared pair the average step length
+is taken over ALL edges of the search tree (`path = list(mol.search_tree.edges)`), then
+`set_distance_restraint(mol, target, ref, distance, avg, tolerance)`.  Errors: `empty` (a molecule of one
+residue has no tree edge: ZeroDivisionError) and those of `setDistanceRestraint`. -/
+def setRestraints (tree : List (Nat × Nat)) (size : Nat → Nat → Rat) :
+    DStore → List Declared → Except String DStore
+  | store, [] => .ok store
+  | store, r :: rest =>
+    match computeAvgStepLength size tree with
+    | none => .error "empty"
+    | some (avg, _) =>
+      match setDistanceRestraint tree store r.target r.ref r.d avg r.tol with
+      | .error e => .error e
+      | .ok store' => setRestraints tree size store' rest
+
+/-- one call `set_distance_restraint(topology.molecules[mol], stop, start, dist, avg, tolerance=0.0)` made by
+`sample_end_to_end_distances` -/
+structure EeCall where
+  mol : Nat
+  target : Nat
+  ref : Nat
+  d : Rat
+  avg : Rat
+deriving Repr, DecidableEq
+
+/-- `persistence.sample_end_to_end_distances` for ONE batch `specs = (start, stop, mol_idxs)`: the path
+`start … stop` is taken on the search tree of the FIRST molecule of the batch (rooted at `start`), the average
+step and the contour length over the edges of that path with the pair sizes of that molecule, `samples` stands for
+the array returned by `generate_end_end_distances` (drawn from `eeCandidates avg contour`), and
+`zip(specs.mol_idxs, distribution)` gives the k-th molecule of the batch the k-th sample.
+Result: `(avg, contour, calls)`; `none` = an exception (empty batch, `stop` not below `start`, `start = stop`). -/
+def sampleBatch (tree : List (Nat × Nat)) (size : Nat → Nat → Rat) (start stop : Nat) (molIdxs : List Nat)
+    (samples : List Rat) : Option (Rat × Rat × List EeCall) :=
+  match molIdxs with
+  | [] => none
+  | _ =>
+    match pathFrom tree start stop with
+    | none => none
+    | some path =>
+      match computeAvgStepLength size (edgePath path) with
+      | none => none
+      | some (avg, contour) =>
+        some (avg, contour, (molIdxs.zip samples).map fun (m, x) => ⟨m, stop, start, x, avg⟩)
 
 /-! ### end-to-end sampling grid -/
 
